@@ -82,7 +82,10 @@ HTML_WRAPS = ["%s", "<div>%s</div>", "<p>%s", "<table>%s</table>", "<table><tr><
 
 
 def mxss_input(rng):
-    if rng.random() < 0.12:
+    r0 = rng.random()
+    if r0 < 0.05:
+        return c09.svg_ref_input(rng)[0]
+    if r0 < 0.15:
         return multi_uri_input(rng)[0] + (rng.choice(PAYLOADS) if rng.random() < 0.3 else "")
     pay = rng.choice(PAYLOADS)
     if rng.random() < 0.2:
@@ -234,6 +237,14 @@ def judge(ctx, case):
                         if ess is not None and ess not in S.allowed_content_types:
                             ctx.violation("forbidden-data-type-reappeared", case, "%s=%r" % (key[1], v[:80]))
                             return
+            if key in c09.PINNED_SVG_REF_ATTRS:
+                for target in c09.url_references(v):
+                    ctx.count("svg_url_references_in_reparsed_tree")
+                    sch = urlcss.url_scheme(target)
+                    if sch is not None and sch not in S.allowed_protocols:
+                        ctx.violation("forbidden-scheme-reappeared-in-svg-reference:" + sch[:15], case,
+                                      "%s=%r on %s; output %s" % (key[1], v[:80], name, short(out, 300)))
+                        return
             if key == (None, "style"):
                 why = urlcss.css_problem(v, S.allowed_css_properties, S.allowed_css_keywords, S.allowed_svg_properties)
                 if why:
